@@ -1180,12 +1180,20 @@ where
         Self: Send + Sync,
     {
         let self_ = RootedThread::new_root(self.borrow());
-        let level = self_.context().stack.get_frames().len();
+        let (level, values) = {
+            let context = self_.context();
+            (context.stack.get_frames().len(), context.stack.len())
+        };
 
         self.call_thunk(closure).await.or_else(move |mut err| {
             let mut context = self_.context();
             let stack = StackFrame::<State>::current(&mut context.stack);
             let new_trace = reset_stack(stack, level)?;
+            // `call_thunk` pushed the closure itself below the frame it entered
+            let len = context.stack.len();
+            if len > values {
+                StackFrame::<State>::current(&mut context.stack).pop_many(len - values);
+            }
             if let Error::Panic(_, ref mut trace) = err {
                 *trace = Some(new_trace);
             }
@@ -3024,11 +3032,20 @@ impl<'vm> ActiveThread<'vm> {
 #[doc(hidden)]
 pub fn reset_stack(mut stack: StackFrame<State>, level: usize) -> Result<crate::stack::Stacktrace> {
     let trace = stack.stack().stacktrace(level);
+    let mut removed_values_start = None;
     while stack.stack().get_frames().len() > level {
+        removed_values_start = Some(stack.frame().offset);
         stack = match stack.exit_scope() {
             Ok(s) => s,
             Err(_) => return Err(format!("Attempted to exit scope above current").into()),
         };
+    }
+    // The values of the removed frames are garbage now, do not leave them on the stack
+    if let Some(start) = removed_values_start {
+        let len = stack.stack().len();
+        if len > start {
+            stack.pop_many(len - start);
+        }
     }
     Ok(trace)
 }
